@@ -263,6 +263,48 @@ def tol_S(d):
     return C_SAFETY * EPS * d * 40.0
 
 
+def tol_R(d, *kappas):
+    """relative entropy (docstring, tolerances): C_SAFETY eps d (40 + sum 1/lmin+(sigma))"""
+    return C_SAFETY * EPS * d * (40.0 + sum(kappas))
+
+
+def tol_pade(d, s, m, lmin, weighted):
+    """extra tolerance of the ('pade', s, m) matrix logarithm used for torch inputs that require grad:
+       log A = 2^s log X, X = A^(1/2^s), log X = int_0^1 (X-1)[(1-t) + t X]^-1 dt by the m-point Gauss-Legendre rule.
+    truncation. For one eigenvalue lambda = u^(2^s), x = u-1 <= 0, the integrand f(t) = x/(1+t x) has f^(2m)(t) = (2m)! x^(2m+1)/(1+t x)^(2m+1); the
+      Gauss-Legendre remainder (m!)^4 f^(2m)(xi) / ((2m+1) (2m)!^3) is bounded by c_m ((1-u)/u)^(2m+1), c_m = (m!)^4/((2m+1) (2m)!^2). Relative
+      entropy (weighted=False): full-rank sigma, u >= lmin^(1/2^s), |Tr rho E| <= |E|_2. Entropy (weighted=True): the error is weighted by lambda itself,
+      lambda 2^s c_m ((1-u)/u)^(2m+1) = 2^s c_m u^a (1-u)^b with a = 2^s-2m-1 >= 0, b = 2m+1, maximal at u = a/(a+b): valid for singular states too.
+    rounding. X carries a relative error d eps; every one of the m solves has condition <= 1/min eig[(1-t_k) + t_k X] <= 1/max(u_min, 1-t_max); the
+      sum has m terms and the result is multiplied by 2^s:  kappa = 2^s (m+1) / max(u_min, 1 - t_max)."""
+    import math
+    node = np.polynomial.legendre.leggauss(m)[0]
+    tmax = float((node.max() + 1) / 2)
+    cm = math.factorial(m) ** 4 / ((2 * m + 1) * float(math.factorial(2 * m)) ** 2)
+    umin = float(max(lmin, 0.0)) ** (1.0 / 2 ** s)
+    if weighted:
+        a, b = 2 ** s - 2 * m - 1, 2 * m + 1
+        assert a >= 0
+        trunc = d * 2 ** s * cm * (a / (a + b)) ** a * (b / (a + b)) ** b
+    else:
+        trunc = 2 ** s * cm * ((1 - umin) / umin) ** (2 * m + 1)
+    return C_SAFETY * EPS * d * 2 ** s * (m + 1) / max(umin, 1 - tmax) + trunc
+
+
+def ref_tr_rho_log_rho(rho):
+    """Tr rho log rho = sum l log l over the positive eigenvalues (0 log 0 = 0); the value get_relative_entropy documents for tr_rho_log_rho"""
+    ev = ref_eigh_psd(rho)[0]
+    ev = ev[ev > 0]
+    return float(np.sum(ev * np.log(ev)))
+
+
+ZERO_EPS_ALPHABET = [0.0, 1e-14, ZERO_EPS, 1e-4]  # zero_eps= coordinate of choi_op_to_kraus_op / super_op_to_kraus_op
+LOGM_DEFAULT = ('pade', 6, 8)  # default _torch_logm of get_relative_entropy (read from the signature)
+LOGM_ALPHABET = ['eigen', None, ('pade', 8, 10)]  # None = the function's default
+GRAD_ALPHABET = ['r', 's', 'rs']  # which argument requires grad
+PENDING = set()  # additions whose oracle fires on the unchanged tree (reported; see the audit protocol)
+
+
 # ------------------------------------------------------------------------------------------------ alphabets
 def unitary_alphabet(N, real, G, rng):
     ret = [('id', np.eye(N))]
@@ -700,6 +742,91 @@ def run_torch_nodes(ctx, ch, din, dout, nk, real, G, rng, Cref, Sref, dropped):
     ctx.out.trace()
 
 
+def zero_eps_edges(ctx, ch, site, Cref, Sref):
+    """the C->K and S->K edges with the documented threshold argument zero_eps (keyword) over ZERO_EPS_ALPHABET, fed with the reference arrays.
+    eigh is backward stable (docstring: |E| <= N eps |C|_2, |C|_2 <= d_in), so by Weyl a computed eigenvalue is within noise = C_SAFETY eps N d_in of
+    a reference eigenvalue: the number of returned terms lies in [#{ev >= zero_eps + noise}, #{ev >= zero_eps - noise}] (one number whenever no
+    reference eigenvalue is near the threshold) and the returned set reproduces the channel up to d_in * (sum of eigenvalues that may be dropped)."""
+    out, din, dout, nk = ctx.out, ctx.din, ctx.dout, ctx.nk
+    N = din * dout
+    PhiE = ctx.chan['PhiE']
+    ev = np.linalg.eigvalsh((Cref + Cref.conj().T) / 2)
+    noise = C_SAFETY * EPS * N * din
+    for thr in ZERO_EPS_ALPHABET:
+        if 'zero_eps' in PENDING:
+            out.count('pending/zero_eps')
+            continue
+        lower, upper = int((ev >= thr + noise).sum()), int((ev >= thr - noise).sum())
+        exact = lower == upper and not np.any((ev > thr / 100) & (ev < thr * 100))  # a factor 100 between threshold and eigenvalues
+        dropped = float(ev[(ev > 0) & (ev < thr + noise)].sum())
+        t_rep = tol_lin(din, dout, nk, 1, 1, 1.0, dropped)
+        for fname, args in (('choi_op_to_kraus_op', (Cref, din)), ('super_op_to_kraus_op', (Sref,))):
+            out.state()
+            ok, y = call(ctx, site, fname, getattr(ch, fname), *args, suffix='[zero_eps]', zero_eps=thr)
+            if not ok:
+                continue
+            yn = to_np(y)
+            det = dict(zero_eps=thr, reference_choi_eigenvalues=ev, got=yn)
+            if yn.ndim != 3 or yn.shape[1:] != (dout, din):
+                out.violation('%s/%s[zero_eps]/shape' % (site, fname), '%s(zero_eps=%g) returned shape %s, expected (n,%d,%d)' % (fname, thr, yn.shape, dout, din), **ctx.detail(**det))
+                continue
+            if not np.all(np.isfinite(yn)):
+                out.violation('%s/%s[zero_eps]/nonfinite' % (site, fname), '%s(zero_eps=%g) returned NaN/Inf Kraus operators' % (fname, thr), **ctx.detail(**det))
+                continue
+            out.count('zero_eps_count_exact' if exact else 'zero_eps_count_interval')
+            if not (lower <= yn.shape[0] <= upper):
+                out.violation('%s/%s[zero_eps]/wrong_number_of_terms' % (site, fname),
+                              '%s(zero_eps=%g) returned %d Kraus terms; the reference Choi operator has between %d and %d eigenvalues >= zero_eps (+- %.3g) '
+                              '(d_in=%d, d_out=%d, n_K=%d, channel %s)' % (fname, thr, yn.shape[0], lower, upper, noise, din, dout, nk, ctx.chan['label']), **ctx.detail(**det))
+                continue
+            err = np.abs(ref_phiE(yn) - PhiE).max() if yn.shape[0] else np.abs(PhiE).max()
+            if err > t_rep:
+                out.violation('%s/%s[zero_eps]/wrong_representation' % (site, fname),
+                              '%s(zero_eps=%g): the returned Kraus set does not implement the channel: |sum_s K_s E_ij K_s^+ - Phi(E_ij)|=%.3g > tol=%.3g (dropped '
+                              'eigenvalues sum to %.3g; d_in=%d, d_out=%d, n_K=%d, channel %s)' % (fname, thr, err, t_rep, dropped, din, dout, nk, ctx.chan['label']),
+                              **ctx.detail(tol=t_rep, **det))
+                continue
+            out.outcome(('zero_eps', fname, thr, int(yn.shape[0])), nontrivial=yn.shape[0] < N)
+
+
+def list_forms(ctx, ch, inputs, refs, Sref):
+    """the Kraus set as a Python list of matrices for the two functions that only iterate over it (apply_kraus_op: numpy and torch; kraus_op_to_super_op)"""
+    import torch
+    out, din, dout, nk = ctx.out, ctx.din, ctx.dout, ctx.nk
+    if 'kraus_list' in PENDING:
+        out.count('pending/kraus_list')
+        return
+    K = ctx.chan['K']
+    Kl = [np.ascontiguousarray(x) for x in K]
+    out.state()
+    ok, y = call(ctx, 'conv', 'kraus_op_to_super_op', ch.kraus_op_to_super_op, Kl, suffix='[list]')
+    if ok:
+        yn = finite_array(ctx, 'conv', 'kraus_op_to_super_op', y, (dout * dout, din * din), '[list]')
+        t_rep = tol_lin(din, dout, nk, 1, 0, 1.0)
+        if yn is not None and np.abs(yn - Sref).max() > t_rep:
+            out.violation('conv/kraus_op_to_super_op[list]/wrong_representation', 'kraus_op_to_super_op of a list of %d Kraus matrices is not the super-operator of the channel: '
+                          '|err|=%.3g > tol=%.3g (d_in=%d, d_out=%d, channel %s)' % (nk, np.abs(yn - Sref).max(), t_rep, din, dout, ctx.chan['label']),
+                          **ctx.detail(got=yn, expected=Sref, tol=t_rep))
+    labels, mats, _ = inputs
+    for sfx, Kb, conv in (('[list]', Kl, lambda x: x), ('[list,torch]', [torch.from_numpy(x.astype(np.complex128)) for x in Kl],
+                                                       lambda x: torch.from_numpy(np.ascontiguousarray(x.astype(np.complex128))))):
+        out.state()
+        for lab, X, R in zip(labels, mats, refs):
+            ok, y = call(ctx, 'conv', 'apply_kraus_op', ch.apply_kraus_op, Kb, conv(X), suffix=sfx)
+            if not ok:
+                break
+            yn = finite_array(ctx, 'conv', 'apply_kraus_op', y, (dout, dout), sfx)
+            if yn is None:
+                break
+            tol = tol_lin(din, dout, nk, 1, 0, float(np.abs(X).max()))
+            out.count('kraus_list_calls')
+            if np.abs(yn - R).max() > tol:
+                out.violation('conv/apply_kraus_op%s/wrong_output' % sfx, 'apply_kraus_op with the Kraus set given as a list, input %s, differs from sum_s K_s X K_s^+: |err|=%.3g > tol=%.3g '
+                              '(d_in=%d, d_out=%d, n_K=%d, channel %s)' % (lab, np.abs(yn - R).max(), tol, din, dout, nk, ctx.chan['label']),
+                              **ctx.detail(input=X, got=yn, expected=R, tol=tol))
+                break
+
+
 def run_conv(case, out, env):
     import numqi
     ch = numqi.channel
@@ -714,6 +841,9 @@ def run_conv(case, out, env):
         ctx = Ctx(out, case, chan, din, dout, nk)
         Cref, Sref, refs, dropped = reference_tables(chan, din, inputs)
         run_tree(ctx, ch, L, inputs, refs, Cref, Sref, dropped)
+        zero_eps_edges(ctx, ch, 'conv', Cref, Sref)
+        if chan['root'] == 'K':
+            list_forms(ctx, ch, inputs, refs, Sref)
         run_torch_nodes(ctx, ch, din, dout, nk, real and chan['root'] == 'K', G, env.rng('conv-in-torch', din, real), Cref, Sref, dropped)
     out.sample = {'kind': 'conv', 'd_in': din, 'd_out': dout, 'n_K': nk, 'field': case['field'], 'channels': [c['label'] for c in chans],
                   'inputs': labels[:2] + ['...'] + labels[-2:], 'tree_nodes_per_channel': n_tree_nodes(L), 'example_kraus_op': chans[min(3, len(chans) - 1)].get('K')}
@@ -855,13 +985,43 @@ class Measures:
         ok, y = call(self.ctx, self.site, 'get_trace_distance', self.u.get_trace_distance, a, b)
         return self._scalar('get_trace_distance', ok, y, rho=a, sigma=b)
 
-    def relative_entropy(self, a, b):
-        ok, y = call(self.ctx, self.site, 'get_relative_entropy', self.u.get_relative_entropy, as_backend(a, self.backend), as_backend(b, self.backend), suffix=self.sfx)
-        return self._scalar('get_relative_entropy', ok, y, rho=a, sigma=b)
+    def as_numpy(self):
+        ret = Measures.__new__(Measures)
+        ret.u, ret.ctx, ret.backend, ret.site, ret.sfx = self.u, self.ctx, 'numpy', self.site, ''
+        return ret
 
-    def entropy(self, a):
-        ok, y = call(self.ctx, self.site, 'get_von_neumann_entropy', self.u.get_von_neumann_entropy, as_backend(a, self.backend), suffix=self.sfx)
-        return self._scalar('get_von_neumann_entropy', ok, y, rho=a)
+    def _arg(self, x, grad):
+        t = as_backend(x, self.backend)
+        if grad:  # a fresh leaf tensor that requires grad (torch only)
+            t = t.clone().requires_grad_(True)
+        return t
+
+    def relative_entropy(self, a, b, grad='', **opt):
+        """opt: tr_rho_log_rho=float, _torch_logm='eigen'|('pade',s,m); grad: subset of 'rs' (rho / sigma require grad)"""
+        ok, y = call(self.ctx, self.site, 'get_relative_entropy', self.u.get_relative_entropy, self._arg(a, 'r' in grad), self._arg(b, 's' in grad),
+                     suffix=self.sfx, **opt)
+        return self._scalar('get_relative_entropy', ok, y, rho=a, sigma=b, grad=grad, options=repr(opt))
+
+    def entropy(self, a, grad=False, **opt):
+        ok, y = call(self.ctx, self.site, 'get_von_neumann_entropy', self.u.get_von_neumann_entropy, self._arg(a, grad), suffix=self.sfx, **opt)
+        return self._scalar('get_von_neumann_entropy', ok, y, rho=a, grad=grad, options=repr(opt))
+
+    def entropy_batch(self, stack, shape, grad=False, **opt):
+        """get_von_neumann_entropy on a batch (..., d, d); returns the float array of the documented batch shape or None"""
+        fname = 'get_von_neumann_entropy'
+        ok, y = call(self.ctx, self.site, fname, self.u.get_von_neumann_entropy, self._arg(stack, grad), suffix=self.sfx, **opt)
+        if not ok:
+            return None
+        yn = to_np(y)
+        if yn.shape != tuple(shape):
+            self.ctx.out.violation('%s/%s%s/batch_shape' % (self.site, fname, self.sfx), '%s returned shape %s for a batch of shape %s, expected %s'
+                                   % (fname, yn.shape, stack.shape, tuple(shape)), **self.ctx.detail(rho=stack, options=repr(opt)))
+            return None
+        if not np.all(np.isfinite(yn)) or (np.iscomplexobj(yn) and np.abs(yn.imag).max() > 1e-12):
+            self.ctx.out.violation('%s/%s%s/nonfinite' % (self.site, fname, self.sfx), '%s returned %r for a batch of valid states' % (fname, yn),
+                                   **self.ctx.detail(rho=stack, options=repr(opt)))
+            return None
+        return yn.real.astype(np.float64)
 
 
 def state_invariants(ms, out, ctx, site, label, rho, d):
@@ -873,7 +1033,90 @@ def state_invariants(ms, out, ctx, site, label, rho, d):
     if S < -t or S > np.log(d) + t:
         out.violation('%s/get_von_neumann_entropy%s/out_of_range' % (site, ms.sfx), 'entropy %.12g of state %s is outside [0, log %d = %.12g] (tol %.3g)'
                       % (S, label, d, np.log(d), t), **ctx.detail(rho=rho, got=S))
+    if ms.backend == 'torch':
+        # option axis (requires_grad, _torch_logm): the forward value does not depend on it. 'pade' is used only when the state requires grad.
+        for grad in (False, True):
+            for logm in ('eigen', LOGM_DEFAULT, LOGM_ALPHABET[-1]) if grad else (LOGM_DEFAULT,):
+                v = ms.entropy(rho, grad=grad, _torch_logm=logm)
+                pade = grad and logm != 'eigen'
+                tt = 2 * t + (tol_pade(d, logm[1], logm[2], 0.0, True) if pade else 0.0)
+                out.count('entropy_option_calls[%s]' % ('pade' if pade else 'eigen'))
+                if v is not None and abs(v - S) > tt:
+                    out.violation('%s/get_von_neumann_entropy[torch]/%s' % (site, 'grad_pade_differs' if pade else 'option_eigen_differs'),
+                                  'entropy of state %s with requires_grad=%s, _torch_logm=%r is %.15g but %.15g without options (tol %.3g)'
+                                  % (label, grad, logm, v, S, tt), **ctx.detail(rho=rho, got=v, expected=S, requires_grad=grad, _torch_logm=repr(logm)))
     return S
+
+
+def relative_entropy_options(ms, out, ctx, site, pair, ra, rb, r, d, full_grid, kappas=None):
+    """option axes of get_relative_entropy on one pair with finite relative entropy r (the default call on ms.backend)"""
+    ev_s = ref_eigh_psd(rb)[0]
+    k = 1.0 / ref_lmin_plus(rb)
+    tR = tol_R(d, *(kappas if kappas is not None else [k]))
+    # tr_rho_log_rho = Tr rho log rho supplied by the caller ("if None, calculate it"): the same value. The two calls share the log sigma term;
+    # the supplied (reference) and the internally computed Tr rho log rho differ by at most tol_S(d), which tol_R contains.
+    if 'tr_rho_log_rho' in PENDING:
+        out.count('pending/tr_rho_log_rho')
+    else:
+        trr = ref_tr_rho_log_rho(ra)
+        v = ms.relative_entropy(ra, rb, tr_rho_log_rho=trr)
+        out.count('tr_rho_log_rho_calls')
+        if v is not None and abs(v - r) > tR:
+            out.violation('%s/get_relative_entropy%s/tr_rho_log_rho_differs' % (site, ms.sfx),
+                          'relative entropy of (%s, %s) is %.15g with tr_rho_log_rho=%.15g supplied but %.15g when it is computed (tol %.3g)'
+                          % (pair[0], pair[1], v, trr, r, tR), **ctx.detail(rho=ra, sigma=rb, tr_rho_log_rho=trr, got=v, expected=r, tol=tR))
+    if ms.backend != 'torch':
+        return
+    # torch inputs that require grad take the Pade matrix logarithm of sigma (default) or the eigen path ('eigen'): same forward value as numpy.
+    # Full-rank sigma only (the truncation bound of tol_pade needs lambda_min(sigma) > 0; 1/lambda_min <= KAPPA_CAP).
+    if 'grad_logm' in PENDING:
+        out.count('pending/grad_logm')
+        return
+    if ev_s[0] <= 1.0 / KAPPA_CAP:
+        out.count('grad_options_skipped(sigma singular or ill conditioned)')
+        return
+    r_np = ms.as_numpy().relative_entropy(ra, rb)
+    if r_np is None:
+        return
+    grid = [(g, m) for g in GRAD_ALPHABET for m in LOGM_ALPHABET] if full_grid else [('rs', 'eigen'), ('rs', None)]
+    for g, logm in grid:
+        eff = LOGM_DEFAULT if logm is None else logm
+        v = ms.relative_entropy(ra, rb, grad=g, **({} if logm is None else {'_torch_logm': logm}))
+        pade = eff != 'eigen'
+        out.count('grad_option_calls[%s]' % ('pade' if pade else 'eigen'))
+        tt = 2 * tR + (tol_pade(d, eff[1], eff[2], float(ev_s[0]), False) if pade else 0.0)
+        if v is not None and abs(v - r_np) > tt:
+            out.violation('%s/get_relative_entropy[torch]/%s' % (site, 'grad_pade_differs' if pade else 'grad_eigen_differs'),
+                          'relative entropy of (%s, %s) with requires_grad on %r and _torch_logm=%s is %.15g but numpy gives %.15g (tol %.3g)'
+                          % (pair[0], pair[1], g, 'default' if logm is None else repr(logm), v, r_np, tt),
+                          **ctx.detail(rho=ra, sigma=rb, requires_grad=g, _torch_logm=repr(logm), got=v, expected=r_np, tol=tt))
+
+
+def entropy_batches(ms, out, ctx, site, what, rhos, d):
+    """get_von_neumann_entropy accepts (..., d, d) (its own assert): batches (n,d,d) and (1,n,d,d) equal the single calls element by element"""
+    n = len(rhos)
+    dt = np.result_type(*[r.dtype for r in rhos])
+    stack = np.ascontiguousarray(np.stack([r.astype(dt) for r in rhos]))
+    singles = [ms.entropy(r.astype(dt)) for r in rhos]
+    if any(s is None for s in singles):
+        return
+    singles = np.array(singles)
+    t = 2 * tol_S(d)
+    forms = [('(n,d,d)', stack, (n,), False, {}), ('(1,n,d,d)', stack[None], (1, n), False, {})]
+    if ms.backend == 'torch':
+        forms.append(('(n,d,d),grad,pade', stack, (n,), True, {'_torch_logm': LOGM_DEFAULT}))
+        forms.append(('(1,n,d,d),grad,pade', stack[None], (1, n), True, {'_torch_logm': LOGM_DEFAULT}))
+    for fl, arr, shape, grad, opt in forms:
+        y = ms.entropy_batch(arr, shape, grad=grad, **opt)
+        out.count('entropy_batch_calls')
+        if y is None:
+            continue
+        tt = t + (tol_pade(d, LOGM_DEFAULT[1], LOGM_DEFAULT[2], 0.0, True) if grad else 0.0)
+        err = np.abs(y.reshape(-1) - singles)
+        if err.max() > tt:
+            k = int(np.argmax(err))
+            out.violation('%s/get_von_neumann_entropy%s/batch_differs' % (site, ms.sfx), 'entropy of element %d of the batch %s of %s is %.15g but %.15g in a single call (tol %.3g)'
+                          % (k, fl, what, y.reshape(-1)[k], singles[k], tt), **ctx.detail(rho=arr, got=y, expected=singles, form=fl))
 
 
 def before_table(ms, out, ctx, site, sts, d):
@@ -885,6 +1128,7 @@ def before_table(ms, out, ctx, site, sts, d):
     tf = tol_F(d)
     for a in range(n):
         state_invariants(ms, out, ctx, site, sts[a]['label'], sts[a]['rho'], d)
+    entropy_batches(ms, out, ctx, site, 'the input alphabet', [s['rho'] for s in sts], d)
     for a in range(n):
         for b in range(n):
             ra, rb = sts[a]['rho'], sts[b]['rho']
@@ -918,6 +1162,7 @@ def before_table(ms, out, ctx, site, sts, d):
                 r = ms.relative_entropy(ra, rb)
                 if r is not None:
                     R[a, b] = r
+                    relative_entropy_options(ms, out, ctx, site, (sts[a]['label'], sts[b]['label']), ra, rb, r, d, True)
             else:
                 out.count('outside_math_domain(relative entropy +inf)')
     for a in range(n):
@@ -961,6 +1206,7 @@ def contract_channel(numqi, out, ctx, site, ms, chan, sts, before, din, dout, ba
     tF = tol_F(din) + tol_F(dout)
     for a in range(n):
         state_invariants(ms, out, ctx, site, 'Phi(%s)' % sts[a]['label'], outs[a], dout)
+    entropy_batches(ms, out, ctx, site, 'the channel outputs', outs, dout)
     F1 = np.full((n, n), np.nan)
     for a in range(n):
         for b in range(n):
@@ -1008,6 +1254,7 @@ def contract_channel(numqi, out, ctx, site, ms, chan, sts, before, din, dout, ba
                         if r1 < -tR:
                             out.violation('%s/get_relative_entropy%s/negative' % (site, ms.sfx), 'relative entropy %.12g < 0 for the channel outputs of (%s, %s)' % (r1, la, lb),
                                           **ctx.detail(got=r1, **det))
+                        relative_entropy_options(ms, out, ctx, site, ('Phi(%s)' % la, 'Phi(%s)' % lb), outs[a], outs[b], r1, dout, False, kappas=[k1])
                         strict = strict or r1 < R0[a, b] - 1e-9
             out.outcome((din, dout, None if t1 is None else round(t1, 6), None if f1 is None else round(f1, 6)), nontrivial=strict)
     for a in range(n):
@@ -1118,6 +1365,7 @@ def run_noise(case, out, env):
     K64 = K.astype(np.complex128) if K.dtype not in (np.float64, np.complex128) else K
     chan['K'] = K64
     run_tree(ctx, ch, case['L'], inputs, refs, Cref, Sref, dropped, hf_depth=0)
+    zero_eps_edges(ctx, ch, 'noise', Cref, Sref)
     sts = qubit_alphabet(G, env.rng('contract-states', 2, False))
     for backend in ('numpy', 'torch'):
         ms = Measures(numqi, ctx, backend, 'noise')
